@@ -17,7 +17,7 @@ from __future__ import annotations
 
 import ast
 
-from .base import Unavailable, find_function, lean_bool, parse, write_if_changed
+from .base import Unavailable, find_function, lean_bool, parse, spelling, write_if_changed
 
 FILE = "data/kinetic_transition_network.py"
 CLASS = "KineticTransitionNetwork"
@@ -117,7 +117,7 @@ def statements(fn: ast.FunctionDef) -> list[str]:
 
 
 def shape(texts: list[str], args: list[str]) -> list[str]:
-    return normalised(ast.parse("\n".join(texts)).body, args)
+    return normalised(spelling(ast.parse("\n".join(texts))).body, args)
 
 
 def variant_of(tree, name: str) -> str:
